@@ -168,9 +168,23 @@ fn run_one(l: &Logical, w: &Wiring) -> Result<Outcome, String> {
                 }
                 output = format!("plaintext:{}", hx(&r::sha256(&data)[..8]));
                 if let Kind::Decrypt = l.kind {
-                    let lines: Vec<&str> = out.stderr.lines().collect();
-                    let named: Vec<String> = lines.iter().filter_map(|x| x.strip_prefix("Success. File from: ")).map(|s| s.to_string()).collect();
-                    let unknown: Vec<String> = lines.iter().filter_map(|x| x.strip_prefix("Unknown key: ")).map(|s| s.to_string()).collect();
+                    // robust to message wording: which keyring entry names (other than the recipient's) are mentioned as
+                    // whole words, and which encoded public keys (48-character base64 tokens) are printed
+                    let is_word = |c: char| c.is_alphanumeric() || c == '-' || c == '_' || c == '+' || c == '/' || c == '=';
+                    let tokens: Vec<&str> = out.stderr.split(|c: char| !is_word(c)).filter(|t| !t.is_empty()).collect();
+                    let mut named: Vec<String> = vec![];
+                    for kl in l.keyring.lines() {
+                        if let Some(n) = kl.strip_prefix("Name = ") {
+                            let n = n.trim();
+                            if n != l.to && tokens.iter().any(|t| *t == n) && !named.contains(&n.to_string()) {
+                                named.push(n.to_string());
+                            }
+                        }
+                    }
+                    named.sort();
+                    let mut unknown: Vec<String> = tokens.iter().filter(|t| t.len() == 48 && r::decode_pk(t).is_some()).map(|t| t.to_string()).collect();
+                    unknown.sort();
+                    unknown.dedup();
                     sender_line = if !named.is_empty() { format!("from:{}", named.join("|")) } else { format!("unknown:{}", unknown.join("|")) };
                     let want = l.sender_line.clone().unwrap_or_default();
                     if sender_line != want {
@@ -218,8 +232,12 @@ fn logical_cases(seed: u64, tier: Tier) -> Vec<Logical> {
     for b in d2[..18].iter_mut() {
         *b ^= 0xa5;
     }
+    // the sender's 32 key bytes with a WRONG checksum: a different encoded key, must never be reported as the sender
+    let mut d0 = blob.clone();
+    d0[35] ^= 0x01;
     let decoys = format!(
-        "{}\n{}\n{}\n{}\n{}\n",
+        "{}\n{}\n{}\n{}\n{}\n{}\n",
+        proc::keyring_entry("mallory-bad-checksum", &r::b64(&d0), None),
         proc::keyring_entry("alic", &r::b64(&d1), None),
         proc::keyring_entry("alice2", &r::b64(&d2), None),
         proc::keyring_entry("Alice", &r::encode_pk(&r::x25519_base(&derive32(seed, "c12-decoy3"))), None),
@@ -318,13 +336,18 @@ fn logical_cases(seed: u64, tier: Tier) -> Vec<Logical> {
     v.push(pcase("pass-decrypt/wrong-password", Kind::PassDecrypt, q3.clone(), Some("otherpw"), false, &[]));
     v.push(pcase("pass-decrypt/corrupted-3rd-chunk", Kind::PassDecrypt, flip(&q3, 36 + 2 * (32 + CS) + 20), Some("filepw"), false, &[]));
     v.push(pcase("pass-decrypt/key-file-given", Kind::PassDecrypt, f1.clone(), Some("filepw"), false, &[]));
+    v.push(pcase("pass-decrypt/trailing-byte", Kind::PassDecrypt, [q3.clone(), vec![0]].concat(), Some("filepw"), false, &[]));
+    v.push(pcase("pass-decrypt/truncated-at-chunk-boundary", Kind::PassDecrypt, q3[..36 + 2 * (32 + CS)].to_vec(), Some("filepw"), false, &[]));
+    let q1 = r::write_pass_file_with_key(&pk, &salt, &p1, &[500]);
+    v.push(pcase("pass-decrypt/valid-1-chunk", Kind::PassDecrypt, q1.clone(), Some("filepw"), true, &p1));
+    v.push(pcase("pass-decrypt/trailing-byte-1-chunk", Kind::PassDecrypt, [q1, vec![0x41]].concat(), Some("filepw"), false, &[]));
     let _ = tier;
     v
 }
 
 pub fn run(rep: &'static Report) {
     rep.set_rule("E-PROC product: every logical case (valid and invalid inputs, keyrings with the sender first/last/absent and decoy entries sharing 24-character prefixes/suffixes of the sender's key and prefix/extension/case variants of the names) x the full product of wirings {file argument | stdin} x {-o | stdout} x {-k | KESTREL_KEYRING} x {long | short options} x {command | alias} x {options before | after the positional}: 64 per keyring command, 32 per password command. Each run is checked against the CLI reference model (exit status, plaintext bytes, REF-validity of produced files, sender line) and all wirings of one logical case must yield the same outcome. distinct non-trivial = distinct (logical case, wiring) runs");
-    rep.assume("terminal-attached stdin/stdout branches (isatty) are not covered: no pty is used");
+    rep.assume("terminal-attached branches are exercised through a pseudo-terminal (password typed at a controlling terminal or at a terminal stdin); a real terminal emulator is not involved");
     let cases = logical_cases(rep.seed, rep.tier);
     let mut jobs = vec![];
     for (ci, c) in cases.iter().enumerate() {
@@ -430,14 +453,49 @@ pub fn run(rep: &'static Report) {
     for ci in 0..cases.len() {
         xjobs.push((ci, "preexisting-output"));
         xjobs.push((ci, "fifo-input"));
+        // the FILE argument is literally named like a command alias (dec, enc, pass, gen)
+        for nm in ["alias-named-file/dec", "alias-named-file/enc", "alias-named-file/pass", "alias-named-file/gen", "alias-named-file/decrypt"] {
+            xjobs.push((ci, nm));
+        }
+        // interactive wirings: the password is typed at a (pseudo-)terminal instead of coming from the environment
+        if cases[ci].password.is_some() && !cases[ci].name.contains("wrong-password") {
+            for k in ["tty-controlling/file/-o", "tty-controlling/stdin-pipe/stdout-pipe", "tty-is-stdin/file/-o", "tty-is-stdin/file/stdout-pipe", "tty-is-stdin-and-stdout/file/-o"] {
+                xjobs.push((ci, k));
+            }
+        }
     }
     xjobs.par_iter().for_each(|&(ci, kind)| {
         rep.eval(1);
         rep.nontrivial(format!("{}-{}", cases[ci].name, kind).as_bytes());
         let attempt = || -> Result<(), String> {
             let l = &cases[ci];
-            let w = Wiring { stdin_input: false, stdout_output: false, env_keyring: false, short_opts: false, alias: false, opts_first: false };
-            let (cmd, files, _) = build_cmd(l, &w);
+            let tty = kind.starts_with("tty-");
+            let w = Wiring { stdin_input: kind.contains("/stdin-pipe/"), stdout_output: kind.ends_with("/stdout-pipe"), env_keyring: false, short_opts: false, alias: false, opts_first: false };
+            let (mut cmd, mut files, _) = build_cmd(l, &w);
+            if let Some(nm) = kind.strip_prefix("alias-named-file/") {
+                for a in cmd.args.iter_mut() {
+                    if a == b"input.bin" {
+                        *a = nm.as_bytes().to_vec();
+                    }
+                }
+                for f in files.iter_mut() {
+                    if f.0 == "input.bin" {
+                        f.0 = nm.to_string();
+                    }
+                }
+            }
+            if tty {
+                cmd.args.retain(|a| a != b"--env-pass");
+                cmd.env.retain(|(k, _)| k != "KESTREL_PASSWORD");
+                let pw = l.password.clone().unwrap();
+                let typed = if matches!(l.kind, Kind::PassEncrypt) { format!("{}\n{}\n", pw, pw) } else { format!("{}\n", pw) };
+                cmd.pty = Some(proc::PtySpec {
+                    typed: typed.into_bytes(),
+                    controlling: kind.starts_with("tty-controlling"),
+                    stdin_is_tty: kind.starts_with("tty-is-stdin"),
+                    stdout_is_tty: kind.starts_with("tty-is-stdin-and-stdout"),
+                });
+            }
             let sc = Scratch::new();
             for (n, d) in &files {
                 if kind == "fifo-input" && n == "input.bin" {
@@ -490,10 +548,10 @@ pub fn run(rep: &'static Report) {
             }
             out.well_behaved()?;
             if out.ok() != l.succeeds {
-                return Err(format!("exit status {} but the operation {} when {}", if out.ok() { 0 } else { 1 }, if l.succeeds { "should complete" } else { "cannot complete" }, if kind == "fifo-input" { "the FILE argument is a named pipe carrying the same bytes" } else { "the output path already holds a longer file" }));
+                return Err(format!("exit status {} but the operation {} when {}", if out.ok() { 0 } else { 1 }, if l.succeeds { "should complete" } else { "cannot complete" }, match kind { "fifo-input" => "the FILE argument is a named pipe carrying the same bytes".to_string(), "preexisting-output" => "the output path already holds a longer file".to_string(), k if k.starts_with("alias-named-file/") => format!("the input file is named '{}'", &k[17..]), k => format!("the password is typed at a terminal ({})", k) }));
             }
             if out.ok() {
-                let data = sc.read("out.bin").ok_or("exit 0 but no output file")?;
+                let data = if w.stdout_output { out.stdout.clone() } else { sc.read("out.bin").ok_or("exit 0 but no output file")? };
                 match l.kind {
                     Kind::Decrypt | Kind::PassDecrypt => {
                         if data != l.plain {
@@ -529,6 +587,48 @@ pub fn run(rep: &'static Report) {
         }
     });
     rep.extra("extra_wiring_runs", json!(xjobs.len()));
+    // terminal-specific behaviour of the model: (a) a wrong password typed at a terminal stdin is asked again and the right one
+    // then succeeds; (b) binary output is refused when stdout is the terminal; (c) a terminal stdin is not accepted as data input
+    {
+        let find = |n: &str| cases.iter().find(|c| c.name == n).unwrap();
+        let d = find("decrypt/valid-1-chunk-sender-first");
+        let wfile = Wiring { stdin_input: false, stdout_output: false, env_keyring: false, short_opts: false, alias: false, opts_first: false };
+        let run_tty = |l: &Logical, w: &Wiring, typed: &str, stdin_tty: bool, stdout_tty: bool, controlling: bool| -> (proc::Out, Option<Vec<u8>>) {
+            let (mut cmd, files, _) = build_cmd(l, w);
+            cmd.args.retain(|a| a != b"--env-pass");
+            cmd.env.retain(|(k, _)| k != "KESTREL_PASSWORD");
+            if stdin_tty {
+                cmd.stdin = proc::StdinSpec::Null;
+            }
+            cmd.pty = Some(proc::PtySpec { typed: typed.as_bytes().to_vec(), controlling, stdin_is_tty: stdin_tty, stdout_is_tty: stdout_tty });
+            let sc = Scratch::new();
+            for (n, dd) in &files {
+                sc.write(n, dd);
+            }
+            let out = proc::run(&cmd, &sc.0);
+            let f = sc.read("out.bin");
+            (out, f)
+        };
+        rep.eval(3);
+        // (a)
+        let (o, f) = run_tty(d, &wfile, "not-the-password\nbobpw\n", true, false, false);
+        if o.well_behaved().is_err() || !o.ok() || f.as_deref() != Some(&d.plain[..]) {
+            rep.violation("model/tty/retry-after-wrong-password", json!({"kind":"tty","case":"retry"}), format!("wrong then right password typed at a terminal stdin: {} (expected success with the full plaintext)", o.summary()));
+        }
+        // (b)
+        let wout = Wiring { stdin_input: false, stdout_output: true, env_keyring: false, short_opts: false, alias: false, opts_first: false };
+        let (o, _) = run_tty(d, &wout, "bobpw\n", true, true, true);
+        if o.well_behaved().is_err() || o.ok() || o.tty_output.windows(8).any(|x| x == &d.plain[..8]) {
+            rep.violation("model/tty/binary-output-to-terminal", json!({"kind":"tty","case":"stdout-tty"}), format!("decrypt with stdout attached to the terminal and no -o: {} (expected a refusal, exit 1, nothing written to the terminal)", o.summary()));
+        }
+        // (c)
+        let win = Wiring { stdin_input: true, stdout_output: false, env_keyring: false, short_opts: false, alias: false, opts_first: false };
+        let (o, f) = run_tty(d, &win, "bobpw\n", true, false, true);
+        if o.well_behaved().is_err() || o.ok() || f.is_some() {
+            rep.violation("model/tty/terminal-as-data-input", json!({"kind":"tty","case":"stdin-tty"}), format!("decrypt without FILE while stdin is a terminal: {} (expected a refusal, exit 1, no output file)", o.summary()));
+        }
+        rep.nontrivial(b"tty-model-cases");
+    }
     rep.extra("logical_cases", json!(cases.iter().map(|c| c.name.clone()).collect::<Vec<_>>()));
     rep.extra("runs", json!(jobs.len()));
     rep.sample(json!({"case":"decrypt/valid-3-chunks-sender-last","wiring":{"input":"stdin","output":"stdout","keyring":"KESTREL_KEYRING","options":"short","command":"dec"},"expect":"exit 0; stdout == 131149 plaintext bytes; stderr 'Success. File from: alice' although decoy entries share 24 leading/trailing characters of alice's key"}));
